@@ -4,7 +4,7 @@
     [Print Assumptions].  The model is the code after fixes/F3, F4, F15, F21. *)
 From Coq Require Import ZArith List Bool String.
 From Verif Require Import AdmitTotal.Base AdmitTotal.Model AdmitTotal.Theorems AdmitTotal.Sites Gen.PanicSites.
-From Verif Require Import AdmitTotal.State AdmitTotal.ProofsState1 AdmitTotal.ProofsState2 AdmitTotal.ProofsState4 AdmitTotal.ProofsState5 AdmitTotal.TheoremsState AdmitTotal.ProofsKeys2 AdmitTotal.TheoremsKeys.
+From Verif Require Import AdmitTotal.State AdmitTotal.ProofsState1 AdmitTotal.ProofsState2 AdmitTotal.ProofsState4 AdmitTotal.ProofsState5 AdmitTotal.TheoremsState AdmitTotal.ProofsKeys2 AdmitTotal.TheoremsKeys AdmitTotal.ProofsConf.
 Import ListNotations.
 
 (** types.Tx.Validate (mempool.verifyTx, and the first step of chain.executeTx) terminates with
@@ -60,6 +60,26 @@ Theorem C14_enterprise_state_wf_preserved :
   ent_wf rpc_parts ev' = true.
 Proof. exact enterprise_state_wf_preserved. Qed.
 Print Assumptions C14_enterprise_state_wf_preserved.
+
+(** Enterprise conf records are stored as flag byte + values each preceded by the separator '\'.
+    serializeConf / deserializeConf round-trip exactly when no value contains the separator;
+    checkArgs rejects such values, so every conf ExecuteEnterpriseTx stores (on a state read from
+    raw records, [ent_of_raw], hence separator free) reads back as the values written.  This is
+    what the model's use of deserialised conf values rests on. *)
+Theorem C14_enterprise_conf_roundtrip :
+  forall to_upper decode_address encode_address list_entry_ok rpc_parts rpc_b64_ok rpc_has_w cc_peer_ok cc_addr_ok
+         cc_hex_ok e oci ev ev' k c,
+  ent_sepfree ev = true ->
+  ent_exec to_upper decode_address encode_address list_entry_ok rpc_parts rpc_b64_ok rpc_has_w cc_peer_ok
+           cc_addr_ok cc_hex_ok e oci ev = Ok ev' ->
+  In (k, c) (ev_confs ev') -> de_conf (ser_conf c) = c.
+Proof. exact ent_exec_conf_roundtrip. Qed.
+Print Assumptions C14_enterprise_conf_roundtrip.
+
+Theorem C14_enterprise_raw_state_sepfree :
+  forall sender admins raws cc, ent_sepfree (ent_of_raw sender admins raws cc) = true.
+Proof. exact ent_of_raw_sepfree. Qed.
+Print Assumptions C14_enterprise_raw_state_sepfree.
 
 (** The storage invariant [Inv] (every stored staking, proposal-vote, vote-result-list and
     name-map record is an output of its serialiser with short components; enterprise confs well
